@@ -138,6 +138,18 @@ pub fn main(args: &[String]) -> i32 {
             let gr = g.regroup(&r);
             let w: Vec<String> = (0..2 + g.rng.below(3)).map(|_| { let mut t = g.small_word(); if g.rng.chance(1, 2) { let v = ["a", "i", "u"][g.rng.below(3)]; t = format!("{t}.{v}.{}", g.small_word()); } t }).collect();
             (r, gr, w)
+        } else if case % 12 == 9 {
+            // focused stream: a group changes a word, a later group puts it back to exactly its input form while another word has moved
+            // on: every reported state is the state at that point, not a comparison with the input
+            let pairs = [("a", "e"), ("i", "u"), ("t", "d"), ("s", "z"), ("k", "x"), ("n", "m")];
+            let (x, y) = pairs[g.rng.below(pairs.len())];
+            let (p, q) = loop { let c = pairs[g.rng.below(pairs.len())]; if c.0 != x { break c } };
+            let mut gr: Vec<Vec<String>> = vec![vec![format!("{x} > {y}")], vec![format!("{p} > {q}")], vec![format!("{y} > {x}")]];
+            if g.rng.chance(1, 3) { gr.insert(g.rng.below(4), vec![]); }
+            if g.rng.chance(1, 3) { gr.push(vec![format!("{q} > {p}")]); }
+            let r: Vec<String> = gr.iter().flatten().cloned().collect();
+            let w: Vec<String> = vec![format!("p{x}t{x}"), format!("k{p}m{p}"), format!("{x}l{p}"), g.small_word()];
+            (r, gr, w)
         } else if case % 12 == 6 {
             // focused stream: several groups, each with a rule that fails at run time on one kind of word, and words that fail in
             // different groups: the error of a run is the error of the FIRST failing word, whatever group it fails in
